@@ -14,7 +14,7 @@ func init() {
 		Title: "Parsers are total and enforce the configured input limit first",
 		Run:   runC18,
 		Explanation: "C18.L: per package, a guard `MaxInputLength != 0 && len(input) > MaxInputLength` (strict; mirrored forms accepted; followed through in-repo helpers) dominates every regexp call, index/slice of the input and decoder construction; its true edge returns an error wrapping that package's ErrInputTooLong built from the zero value of T with no operand derived from the input's bytes; the sentinel is produced nowhere else. " +
-			"C18.T1: in the call-graph closure of ~30 entry points no explicit panic, no non-comma-ok type assertion (except boxing round trips and one listed json key exception), no integer division by a non-constant. " +
+			"C18.T1: in the call-graph closure of 27 entry points no explicit panic, no non-comma-ok type assertion (except boxing round trips and one listed exception — the JSON object key token asserted to string — whose justification, that every member value is consumed completely by the nesting counter of the value skipper, is itself checked), no integer division by a non-constant. " +
 			"C18.T2: every index/slice site in that closure is an obligation handed to a bound prover (dominating length facts, regexp sub-match count and shortest word from the pattern's automaton, range keys, length scenarios, caller-order preconditions, array bounds). " +
 			"C18.T3: every CFG cycle in the closure ranges over a finite collection, counts to a constant or a loaded length, or consumes a decoder token on each iteration.",
 		NotDecided:  []string{"stdlib totality (regexp, strconv, encoding/json, fmt are assumed not to panic on any input)", "allocation size inside stdlib", "behaviour of user-supplied Parser/Formatter/ComparePreRelease replacements"},
